@@ -168,185 +168,6 @@ Proof.
     apply incl_appl. destruct (c_data c); simpl; [apply arr_files_old_incl|apply incl_refl].
 Qed.
 
-(* ---- the writer ------------------------------------------------------------- *)
-Lemma zassoc_zremove_neq {A} k k' (l : list (Z * A)) :
-  k <> k' -> zassoc k (zremove k' l) = zassoc k l.
-Proof.
-  intro N. induction l as [|[a v] r IH]; simpl; [reflexivity|].
-  destruct (Z.eqb k' a) eqn:E1.
-  - apply Z.eqb_eq in E1. subst. destruct (Z.eqb k a) eqn:E2.
-    + apply Z.eqb_eq in E2. congruence.
-    + exact IH.
-  - simpl. destruct (Z.eqb k a); [reflexivity|exact IH].
-Qed.
-
-Lemma zassoc_zremove_eq {A} k (l : list (Z * A)) : zassoc k (zremove k l) = None.
-Proof.
-  induction l as [|[a v] r IH]; simpl; [reflexivity|].
-  destruct (Z.eqb k a) eqn:E; [exact IH|]. simpl. rewrite E. exact IH.
-Qed.
-
-Lemma content_create_neq fs x stamp p :
-  p <> real fs x -> content (create fs x stamp) p = content fs p.
-Proof.
-  intro N. unfold content, create. simpl.
-  destruct (Z.eqb p (real fs x)) eqn:E; [apply Z.eqb_eq in E; congruence|].
-  apply zassoc_zremove_neq. exact N.
-Qed.
-
-Lemma content_append_fst fs x p :
-  option_map fst (content (append fs x) p) = option_map fst (content fs p).
-Proof.
-  unfold content, append. destruct (zassoc (real fs x) (regs fs)) as [[s k]|] eqn:E; [|reflexivity].
-  simpl. destruct (Z.eqb p (real fs x)) eqn:E2.
-  - apply Z.eqb_eq in E2. subst. rewrite E. reflexivity.
-  - rewrite zassoc_zremove_neq; [reflexivity|]. intro H. subst. rewrite Z.eqb_refl in E2. discriminate.
-Qed.
-
-Lemma link_ne_real fs x n : wf_fs fs -> is_link fs x = true -> real fs n <> real fs x -> real fs n <> x.
-Proof.
-  unfold is_link, real. intros W Hx N E.
-  destruct (zassoc x (links fs)) as [t|] eqn:Ex; [|discriminate].
-  destruct (zassoc n (links fs)) as [t'|] eqn:En.
-  - subst t'. apply W in En. congruence.
-  - subst n. congruence.
-Qed.
-
-Lemma guard_false_real fs f x n :
-  guard fs f x = false -> In n (consulted f) -> real fs n <> real fs x.
-Proof.
-  unfold guard. intro H. apply orb_false_iff in H as [_ H]. intros Hn E.
-  assert (existsb (Z.eqb (real fs x)) (map (real fs) (consulted f)) = true); [|congruence].
-  apply existsb_Zeqb_In. rewrite <- E. apply in_map. exact Hn.
-Qed.
-
-Lemma needs_consulted f n : needs f n -> In n (consulted f).
-Proof. intro H. unfold consulted. apply in_or_app. right. apply files_complete. exact H. Qed.
-
-Lemma content_replace fs x stamp p :
-  p <> real fs x -> (is_link fs x = true -> p <> x) ->
-  content (create (remove fs x) x stamp) p = content fs p.
-Proof.
-  intros N NL. unfold remove. destruct (is_link fs x) eqn:L.
-  - specialize (NL eq_refl).
-    assert (R : real (mkFS (regs fs) (zremove x (links fs))) x = x).
-    { unfold real. simpl. rewrite zassoc_zremove_eq. reflexivity. }
-    unfold content, create. rewrite R. simpl.
-    destruct (Z.eqb p x) eqn:E; [apply Z.eqb_eq in E; congruence|].
-    apply zassoc_zremove_neq. exact NL.
-  - assert (Rx : real fs x = x).
-    { unfold real, is_link in *. destruct (zassoc x (links fs)); [discriminate|reflexivity]. }
-    assert (R : real (mkFS (zremove x (regs fs)) (links fs)) x = x) by exact Rx.
-    unfold content, create. rewrite R. simpl. rewrite Rx in N.
-    destruct (Z.eqb p x) eqn:E; [apply Z.eqb_eq in E; congruence|].
-    rewrite !zassoc_zremove_neq by exact N. reflexivity.
-Qed.
-
-Lemma write_w_untouched fs fields x o stamp fs' r p :
-  wf_fs fs -> w_mode o = MW ->
-  write_model guard fs fields x o stamp = (fs', r) ->
-  (exists f n, In f fields /\ In n (consulted f) /\ p = real fs n) ->
-  content fs' p = content fs p.
-Proof.
-  intros W M H (f & n & Hf & Hn & Hp). unfold write_model in H. rewrite M in H.
-  assert (K : forall r0,
-    (if isfile fs x && negb (w_overwrite o) then (fs, Some OtherErr)
-     else if existsb (fun f0 => guard fs f0 x) fields then (fs, Some ValueErr)
-     else (create (if isfile fs x && w_overwrite o then remove fs x else fs) x stamp, r0))
-    = (fs', r) -> content fs' p = content fs p).
-  { intros r0 H0.
-    destruct (isfile fs x && negb (w_overwrite o)); [inversion H0; subst; reflexivity|].
-    destruct (existsb (fun f0 => guard fs f0 x) fields) eqn:G; [inversion H0; subst; reflexivity|].
-    assert (Gf : guard fs f x = false).
-    { destruct (guard fs f x) eqn:Gf; [|reflexivity].
-      assert (existsb (fun f0 => guard fs f0 x) fields = true); [|congruence].
-      apply existsb_exists. exists f. auto. }
-    pose proof (guard_false_real _ _ _ _ Gf Hn) as N. rewrite <- Hp in N.
-    inversion H0; subst fs'. clear H0.
-    destruct (isfile fs x && w_overwrite o).
-    - apply content_replace; [exact N|]. intro L. subst p. apply link_ne_real; auto.
-    - apply content_create_neq. exact N. }
-  destruct (w_fault o) eqn:Ef; try (inversion H; subst; reflexivity); eapply K; exact H.
-Qed.
-
-Lemma write_a_keeps_content G fs fields x o stamp fs' r p :
-  w_mode o = MA -> write_model G fs fields x o stamp = (fs', r) ->
-  option_map fst (content fs' p) = option_map fst (content fs p).
-Proof.
-  intros M H. unfold write_model in H. rewrite M in H.
-  destruct (w_fault o); try (inversion H; subst; reflexivity);
-    destruct (negb (isfile fs x)); inversion H; subst; try reflexivity;
-    apply content_append_fst.
-Qed.
-
-(* the property theorem: a file that a written construct still needs is left
-   exactly as it was by every mode-w write, and keeps its content under append *)
-Lemma guard_sound fs fields x o stamp fs' r f n :
-  wf_fs fs -> In f fields -> needs f n ->
-  write_model guard fs fields x o stamp = (fs', r) ->
-  match w_mode o with
-  | MA => option_map fst (content fs' (real fs n)) = option_map fst (content fs (real fs n))
-  | _ => content fs' (real fs n) = content fs (real fs n)
-  end.
-Proof.
-  intros W Hf Hn H. destruct (w_mode o) eqn:M.
-  - eapply write_w_untouched; eauto. exists f, n. splits; auto. apply needs_consulted. exact Hn.
-  - eapply write_a_keeps_content; eauto.
-  - unfold write_model in H. rewrite M in H. inversion H; subst. reflexivity.
-Qed.
-
-(* a construct is also protected through the names it was read from *)
-Lemma guard_sound_orig fs fields x o stamp fs' r f n :
-  wf_fs fs -> In f fields -> In n (field_orig f) -> w_mode o = MW ->
-  write_model guard fs fields x o stamp = (fs', r) ->
-  content fs' (real fs n) = content fs (real fs n).
-Proof.
-  intros W Hf Hn M H. eapply write_w_untouched; eauto. exists f, n. splits; auto.
-  unfold consulted. apply in_or_app. left. exact Hn.
-Qed.
-
-(* an error other than one raised while variables are written leaves every file alone *)
-Lemma error_untouched G fs fields x o stamp fs' e :
-  w_fault o <> FLate -> w_mode o <> MA ->
-  write_model G fs fields x o stamp = (fs', Some e) -> fs' = fs.
-Proof.
-  intros NL NA H. unfold write_model in H.
-  destruct (w_mode o) eqn:M; [|congruence|inversion H; reflexivity].
-  destruct (w_fault o) eqn:Ef; try congruence; try (inversion H; reflexivity).
-  destruct (isfile fs x && negb (w_overwrite o)); [inversion H; reflexivity|].
-  destruct (existsb (fun f => G fs f x) fields); [inversion H; reflexivity|].
-  unfold late in H. rewrite Ef in H. inversion H.
-Qed.
-
-Lemma error_untouched_append G fs fields x o stamp fs' e :
-  w_mode o = MA -> (exists e', w_fault o = FEarly1 e' \/ w_fault o = FEarly2 e') ->
-  write_model G fs fields x o stamp = (fs', Some e) -> fs' = fs.
-Proof.
-  intros M (e' & [Ef|Ef]) H; unfold write_model in H; rewrite M, Ef in H.
-  - inversion H; reflexivity.
-  - destruct (negb (isfile fs x)); inversion H; reflexivity.
-Qed.
-
-(* refusal by the guard happens before the file is touched *)
-Lemma refused_untouched G fs fields x o stamp :
-  w_mode o = MW -> (forall e, w_fault o <> FEarly1 e) -> (forall e, w_fault o <> FEarly2 e) ->
-  isfile fs x && negb (w_overwrite o) = false ->
-  existsb (fun f => G fs f x) fields = true ->
-  write_model G fs fields x o stamp = (fs, Some ValueErr).
-Proof.
-  intros M N1 N2 Ho Hg. unfold write_model. rewrite M.
-  destruct (w_fault o) eqn:Ef; try (exfalso; eapply N1; eauto; fail);
-    try (exfalso; eapply N2; eauto; fail); rewrite Ho, Hg; reflexivity.
-Qed.
-
-Lemma no_overwrite G fs fields x o stamp :
-  w_mode o = MW -> w_overwrite o = false -> isfile fs x = true ->
-  exists e, write_model G fs fields x o stamp = (fs, Some e).
-Proof.
-  intros M Ho Hx. unfold write_model. rewrite M, Ho, Hx. simpl.
-  destruct (w_fault o); eauto.
-Qed.
-
 (* ---- histories: recorded original names keep covering the needed files ----- *)
 Lemma leaf_refb_incl o p : leaf_refb o p = true -> incl (leaf_files o) (leaf_files p).
 Proof.
@@ -480,6 +301,10 @@ Proof.
     pose proof (cons_inv_of _ _ _ (Forall_nth_error _ _ _ _ F E2) K) as (_ & C2 & _).
     rewrite B in C2. split; simpl; [exact I1|]. apply (Forall_kupdate cons_inv); [|exact I].
     intros c (C1 & _ & C3). unfold cons_inv. simpl. splits; auto.
+  - (* ONewCons *) destruct (nth_error e i) as [f|] eqn:E; [|exact F].
+    apply Forall_set_nth; [|exact F]. pose proof (Forall_nth_error _ _ _ _ F E) as [I1 I].
+    split; simpl; [exact I1|]. apply Forall_snoc; [apply Forall_kremove; exact I|].
+    unfold cons_inv. simpl. splits; intros x [].
   - (* OTouch *) exact F.
 Qed.
 
@@ -505,14 +330,6 @@ Lemma orig_covers_needs e0 e f x :
 Proof.
   intros I R Hf Hn. pose proof (reach_inv _ _ R I) as F. rewrite Forall_forall in F.
   apply (field_inv_covers f (F f Hf)). apply files_complete. exact Hn.
-Qed.
-
-(* ... so the guard before the repair was sound on those histories (by name) *)
-Lemma guard_old_sound_no_transplant e0 e f x :
-  Forall field_inv e0 -> reach no_transplant e0 e -> In f e -> needs f x ->
-  forall fs, guard_old fs f x = true.
-Proof.
-  intros I R Hf Hn fs. unfold guard_old. apply existsb_Zeqb_In. eapply orig_covers_needs; eauto.
 Qed.
 
 (* with a transplant it is not: data moved into a fresh field *)
@@ -692,6 +509,10 @@ Proof.
         -- eapply incl_tran; [|eapply (field_files_in_env e dst f); eauto]. unfold field_files.
            apply incl_appr, incl_refl.
         -- eapply incl_tran; [apply (select_files _ _ _ S)|]. eapply field_files_in_env; eauto.
+  - (* ONewCons *) destruct (nth_error e i) as [f|] eqn:E; [|apply incl_refl]. apply env_files_set_nth.
+    unfold field_files at 1. simpl. rewrite flat_map_app. simpl. rewrite !app_nil_r.
+    eapply incl_tran; [|eapply (field_files_in_env e i f); eauto]. unfold field_files.
+    apply incl_app_app; [apply incl_refl|]. apply flat_cons_incl. apply kremove_incl.
   - apply incl_refl.
 Qed.
 
@@ -748,20 +569,7 @@ Qed.
 (* file 7 is a regular file, 8 a link to it; a field with lazy data, a
    coordinate with lazy bounds and a compressed array with a lazy count
    variable; the writer refuses to write it over 7 and over 8, and writes to 9 *)
-Definition ex_fs : fsys := mkFS [(7, (100, O))] [(8, 7)].
 Definition ex_field : field :=
   mkF [7] (Some (Comp Mem [mkAnc [7] (File [7])]))
       [("dimensioncoordinate0"%string, mkC [7] (Some (Plain Mem)) (Some (mkP [7] (Some (Plain (File [7]))))) None)].
 
-Lemma guard_sound_example :
-  wf_fs ex_fs /\ needs ex_field 7 /\
-  write_model guard ex_fs [ex_field] 7 (mkW MW true FNone) 101 = (ex_fs, Some ValueErr) /\
-  write_model guard ex_fs [ex_field] 8 (mkW MW true FNone) 101 = (ex_fs, Some ValueErr) /\
-  snd (write_model guard ex_fs [ex_field] 9 (mkW MW true FNone) 101) = None /\
-  guard_old ex_fs (mkF [] (f_data ex_field) []) 7 = false.
-Proof.
-  splits; try reflexivity.
-  - intros l t. unfold ex_fs. simpl. destruct (Z.eqb l 8) eqn:E; [|discriminate].
-    intro H. inversion H. reflexivity.
-  - apply files_complete. vm_compute. left. reflexivity.
-Qed.
